@@ -65,6 +65,12 @@ theorem refused_at_entry_untouched (H : Bytes → Req → σ → σ) (mux : Byte
     (serveHTTP H mux h idx (fuel + 1) r s).final = .refused w ∧ Untouched (serveHTTP H mux h idx (fuel + 1) r s) s := by
   simp [serveHTTP, serve, hg, Untouched]
 
+/-- … and it carries no CORS header -/
+theorem refused_at_entry_no_cors (H : Bytes → Req → σ → σ) (mux : Bytes → Bytes → Route) (h : Handler)
+    (idx : Index) (fuel : Nat) (r : Req) (s : σ) (w : Refusal) (hg : gate h r = .refuse w) :
+    (serveHTTP H mux h idx (fuel + 1) r s).cors = 0 := by
+  simp [serveHTTP, serve, hg]
+
 -- ================================================================ local endpoint: Host
 
 /-- **enforcement is decided by the kind of listen address**: the Host check is on exactly for
@@ -502,6 +508,22 @@ theorem remote_unlisted_identity_401 (H : Bytes → Req → σ → σ) (mux : By
   have hc := (chainScan_none acl r.method r.path chains).2 hk
   simp [gate, aclGate, hr, ht, hc]
 
+/-- **remote: no TLS connection state, nothing served** — the remote gate dereferences `r.TLS`
+    before anything else; a request that somehow arrives without one panics there (the server's
+    recover answers nothing) instead of falling through to the handlers. -/
+theorem remote_without_tls_never_served (H : Bytes → Req → σ → σ) (mux : Bytes → Bytes → Route) (h : Handler)
+    (idx : Index) (fuel : Nat) (r : Req) (s : σ) (acl : List Access)
+    (hr : h.remote = some acl) (ht : r.tls = none) :
+    Untouched (serveHTTP H mux h idx fuel r s) s := by
+  apply serve_untouched_of_no_dispatch
+  intro d hd
+  obtain ⟨⟨c, hp⟩, _⟩ := every_dispatch_is_gated H mux h idx fuel r s d hd
+  have hn := ((gate_pass_iff h _ c).1 hp).1
+  rcases (aclGate_none_iff h _).1 hn with hnone | ⟨_, chains, _, htls, _⟩
+  · rw [hr] at hnone; cases hnone
+  · have : (r.withPath d.path).tls = r.tls := rfl
+    rw [this, ht] at htls; cases htls
+
 /-- **remote endpoint, configuration level**: the handler built for the remote endpoint of a
     configuration with access controls serves a request only if it is authorised; Host and
     Origin play no role there. -/
@@ -777,6 +799,9 @@ example : (∀ p ∈ [(⟨none, some [str "/config/"]⟩ : Perm)], PermAllows p 
     rcases h with h | ⟨ps, hps, ap, hap, hpre⟩
     · cases h
     · cases hps; simp at hap; subst hap; revert hpre; decide
+-- remote_without_tls_never_served: the model's outcome is the panic
+example : (serveReal count (newAdminHandler exRemoteCfg exRemoteAddr true []) [] 3
+    { exRemoteReq "GET" "/config/" [] with tls := none } 0).final = .panic := by decide
 -- remote_unlisted_identity_401: hypotheses hold for a client presenting only key 7
 example : (newAdminHandler exRemoteCfg exRemoteAddr true []).remote = some exAcl ∧
     (exRemoteReq "GET" "/config/" [[7]]).tls = some [[7]] ∧ ¬ KeyListed exAcl [[7]] := by decide
